@@ -121,7 +121,49 @@ M("c14-keys-dedup", ["C14"], "duplicate keys silently dropped", (FL, "\tfor _, w
 M("c14-p-without-w", ["C14"], "-S with -w accepted when -a is absent (watch wins)", (FL, "\t\tcase \"a\", \"A\", \"C\", \"F\", \"S\":\n\t\t\tsyscall = 1", "\t\tcase \"a\", \"A\", \"C\", \"F\":\n\t\t\tsyscall = 1\n\t\tcase \"S\":\n\t\t\tif fileWatch == 0 {\n\t\t\t\tsyscall = 1\n\t\t\t}"))
 # ---- C20 ----
 M("c20-yaml-typo", ["C20"], "a record type in normalizations.yaml misspelt", ("aucoalesce/normalizations.yaml", "  - record_types: ANOM_CRYPTO_FAIL\n", "  - record_types: ANOM_CRYPT_FAIL\n"))
-M("c20-errno-alias", ["C20", "C12"], "EWOULDBLOCK alias points at another number", ("auparse/zaudit_exit_codes.go", "\t\"EWOULDBLOCK\":     11,", "\t\"EWOULDBLOCK\":     41,"))
+M("c20-errno-alias", ["C20", "C12"], "EWOULDBLOCK alias points at another number", ("auparse/zaudit_exit_codes.go", "\t\"EWOULDBLOCK\":     0xb,", "\t\"EWOULDBLOCK\":     0x29,"))
 M("c20-arch-dup-name", ["C20"], "two arch codes share a name", ("auparse/zaudit_arches.go", "\tAUDIT_ARCH_SHEL64:      \"shel64\",", "\tAUDIT_ARCH_SHEL64:      \"sh64\","))
 M("c20-type-name-mismatch", ["C20", "C04"], "name->type table disagrees with type->name for one entry", ("auparse/zaudit_msg_types.go", "\t\"VIRT_MIGRATE_OUT\":          AUDIT_VIRT_MIGRATE_OUT,", "\t\"VIRT_MIGRATE_OUT\":          AUDIT_VIRT_MIGRATE_IN,"))
 M("c20-category-random", ["C20"], "categorisation depends on a package-level counter", ("aucoalesce/event_type.go", "func GetAuditEventType(t AuditMessageType) AuditEventType {", "var categorisations int\n\nfunc GetAuditEventType(t AuditMessageType) AuditEventType {\n\tcategorisations++\n\tif t == AUDIT_KERNEL && categorisations%1000 == 999 {\n\t\treturn EventTypeUnknown\n\t}"))
+# ---- C08 ----
+AU = "audit.go"
+M("c08-addrule-swallow", ["C08"], "AddRule swallows EBUSY", (AU, "\t\tif errors.Is(err, syscall.EEXIST) {\n\t\t\treturn errors.New(\"rule exists\")\n\t\t}", "\t\tif errors.Is(err, syscall.EEXIST) {\n\t\t\treturn errors.New(\"rule exists\")\n\t\t}\n\t\tif errors.Is(err, syscall.EBUSY) {\n\t\t\treturn nil\n\t\t}"))
+M("c08-foreign-seq-accepted", ["C08"], "a reply with a larger sequence is accepted", (AU, "\tif msg.Header.Seq != seq {", "\tif msg.Header.Seq < seq {"))
+M("c08-eagain-budget", ["C08"], "only 8 transient failures tolerated", (AU, "\t\tfor i := 0; i < 10; i++ {", "\t\tfor i := 0; i < 9; i++ {"))
+M("c08-getrules-no-copy", ["C08", "C17"], "GetRules returns slices of the receive buffer", (AU, "\t\trule := make([]byte, len(reply.Data))\n\t\tcopy(rule, reply.Data)\n\t\trules = append(rules, rule)", "\t\trules = append(rules, reply.Data)"))
+M("c08-setter-ack-type", ["C08"], "set() does not check the ACK type", (AU, "\tif ack.Header.Type != syscall.NLMSG_ERROR {\n\t\treturn fmt.Errorf(\"unexpected ACK to SET, type=%d\", ack.Header.Type)\n\t}\n\n\tif err := ParseNetlinkError(ack.Data); err != nil {\n\t\treturn err\n\t}\n\n\treturn nil\n}", "\tif err := ParseNetlinkError(ack.Data); err != nil {\n\t\treturn err\n\t}\n\n\treturn nil\n}"))
+M("c08-getstatus-skip-reply-type", ["C08"], "GetStatus accepts any reply type", (AU, "\tif reply.Header.Type != AuditGet {", "\tif reply.Header.Type != AuditGet && reply.Header.Type != AuditSet {"))
+M("c08-deleterules-ignores-errors", ["C08"], "DeleteRules ignores ENOENT from individual deletes", (AU, "\t\tif err := c.DeleteRule(rule); err != nil {", "\t\tif err := c.DeleteRule(rule); err != nil && !errors.Is(err, syscall.ENOENT) {"))
+# ---- C16 ----
+M("c16-backlogwait-mask", ["C16"], "SetBacklogWaitTime uses the backlog-limit mask", (AU, "\t\tMask:            AuditStatusBacklogWaitTime,", "\t\tMask:            AuditStatusBacklogLimit,"))
+M("c16-enabled-true-2", ["C16"], "SetEnabled(true) sends 2 when called in NoWait mode", (AU, "\tif enabled {\n\t\te = 1\n\t}", "\tif enabled {\n\t\te = 1\n\t\tif wm == NoWait {\n\t\t\te = 2\n\t\t}\n\t}"))
+M("c16-flags-no-ack", ["C16", "C08"], "set() drops NLM_F_ACK in NoWait mode", (AU, "\tseq, err := c.Netlink.Send(msg)\n\tif err != nil {\n\t\treturn fmt.Errorf(\"failed sending request: %w\", err)\n\t}\n\n\tif mode == NoWait {", "\tif mode == NoWait {\n\t\tmsg.Header.Flags = syscall.NLM_F_REQUEST\n\t}\n\tseq, err := c.Netlink.Send(msg)\n\tif err != nil {\n\t\treturn fmt.Errorf(\"failed sending request: %w\", err)\n\t}\n\n\tif mode == NoWait {"))
+M("c16-minsize", ["C16"], "FromWireFormat accepts 28-byte buffers", (AU, "\tif len(buf) < MinSizeofAuditStatus {\n\t\treturn io.ErrUnexpectedEOF", "\tif len(buf) < MinSizeofAuditStatus-4 {\n\t\treturn io.ErrUnexpectedEOF"))
+M("c16-feature-bit", ["C16"], "a feature bitmap constant shifted", (AU, "\tAuditFeatureBitmapExcludeExtend\n", "\tAuditFeatureBitmapExcludeExtend = 1 << (iota + 1)\n"))
+M("c16-pid-field", ["C16"], "SetPID writes the pid into the wrong field when it is above 65535", (AU, "\tc.clearPIDOnClose = true\n\treturn c.set(status, wm)", "\tc.clearPIDOnClose = true\n\tif status.PID > 65535 {\n\t\tstatus.RateLimit = status.PID\n\t}\n\treturn c.set(status, wm)"))
+# ---- C17 ----
+M("c17-close-no-once", ["C17"], "Close uses a plain flag instead of sync.Once", (AU, "\tc.closeOnce.Do(func() {", "\tif c.closed {\n\t\treturn nil\n\t}\n\tc.closed = true\n\tfunc() {"), (AU, "\t\terr = errors.Join(err, c.Netlink.Close())\n\t})", "\t\terr = errors.Join(err, c.Netlink.Close())\n\t}()"), (AU, "\tcloseOnce       sync.Once", "\tcloseOnce       sync.Once\n\tclosed          bool"))
+M("c17-clearpid-always", ["C17"], "Close always clears the PID", (AU, "\t\tif c.clearPIDOnClose {", "\t\tif c.clearPIDOnClose || len(c.pendingAcks) == 0 {"))
+M("c17-clearpid-waits", ["C17"], "Close waits for the ACK of the PID clear", (AU, "\t\t\terr = c.set(status, NoWait)", "\t\t\terr = c.set(status, WaitForReply)"))
+M("c17-waitacks-stops-early", ["C17"], "WaitForPendingACKs stops after 8 ACKs", (AU, "\tfor len(c.pendingAcks) > 0 {", "\tfor n := 0; len(c.pendingAcks) > 0 && n < 8; n++ {"))
+M("c17-waitacks-continues-after-error", ["C17"], "WaitForPendingACKs keeps reading after an error and returns the last one", (AU, "\t\tif err := ParseNetlinkError(ack.Data); err != nil {\n\t\t\treturn err\n\t\t}\n\t}\n\treturn nil\n}", "\t\tif err := ParseNetlinkError(ack.Data); err != nil {\n\t\t\tlastErr = err\n\t\t}\n\t}\n\treturn lastErr\n}"), (AU, "func (c *AuditClient) WaitForPendingACKs() error {\n", "func (c *AuditClient) WaitForPendingACKs() error {\n\tvar lastErr error\n"))
+# ---- C18 ----
+NL = "netlink.go"
+M("c18-pid-check-inverted", ["C18"], "sender check accepts non-kernel senders whose pid equals ours", (NL, "\tif !ok || fromNetlink.Pid != 0 {", "\tif !ok || (fromNetlink.Pid != 0 && fromNetlink.Pid != c.pid+1 && fromNetlink.Groups == 0) {"))
+M("c18-seq-nonatomic", ["C18"], "sequence incremented without atomics", (NL, "\tmsg.Header.Seq = atomic.AddUint32(&c.seq, 1)", "\tc.seq++\n\tmsg.Header.Seq = c.seq\n\t_ = atomic.LoadUint32"))
+M("c18-len-padded", ["C18"], "nlmsg_len padded to 4", (NL, "\tmsg.Header.Len = uint32(syscall.SizeofNlMsghdr + len(msg.Data))", "\tmsg.Header.Len = uint32(syscall.SizeofNlMsghdr + (len(msg.Data)+3)&^3)"))
+M("c18-parser-honours-len", ["C18"], "audit parser trusts the header length", (AU, "\t\tData:   buf[syscall.NLMSG_HDRLEN:],", "\t\tData:   buf[syscall.NLMSG_HDRLEN:min(len(buf), int(*(*uint32)(unsafe.Pointer(&buf[0]))))],"))
+M("c18-short-check", ["C18"], "audit parser length check off by four", (AU, "\tif len(buf) < syscall.NLMSG_HDRLEN {\n\t\treturn nil, syscall.EINVAL", "\tif len(buf) < syscall.NLMSG_HDRLEN-4 {\n\t\treturn nil, syscall.EINVAL"))
+M("c18-flags-overwritten", ["C18"], "Send forces NLM_F_REQUEST only (drops other flag bits above 0x400)", (NL, "\tmsg.Header.Seq = atomic.AddUint32(&c.seq, 1)", "\tmsg.Header.Flags &= 0x7ff\n\tmsg.Header.Seq = atomic.AddUint32(&c.seq, 1)"))
+# ---- C09 / C15 ----
+CO = "aucoalesce/coalesce.go"
+M("c09-socket-prefix-drop", ["C09"], "SOCKADDR family key not copied", (CO, "\tfor k, v := range data {\n\t\tevent.Data[\"socket_\"+k] = v\n\t}", "\tfor k, v := range data {\n\t\tif k == \"family\" {\n\t\t\tcontinue\n\t\t}\n\t\tevent.Data[\"socket_\"+k] = v\n\t}"))
+M("c09-dup-warning-removed", ["C09"], "duplicate-key warning removed", (CO, "\t\t\tevent.Warnings = append(event.Warnings, fmt.Errorf(\n\t\t\t\t\"duplicate key (%v) from %v message\", k, msg.RecordType))\n\t\t\tcontinue", "\t\t\tcontinue"))
+M("c09-mode-mask", ["C09"], "file mode masked with 0777", (CO, "\t\tevent.File.Mode = fmt.Sprintf(\"%04o\", 0o7777&m)", "\t\tevent.File.Mode = fmt.Sprintf(\"%04o\", 0o777&m)"))
+M("c09-identity-syscall", ["C09"], "event identity taken from the SYSCALL record even when another record is first", (CO, "\tif msg == nil {\n\t\tmsg = syscall\n\t}\n\tevent := &Event{", "\tif msg == nil || syscall != nil {\n\t\tmsg = syscall\n\t}\n\tevent := &Event{"))
+M("c09-selinux-label-drop", ["C09"], "subj_category label dropped", (CO, "\t\t} else if strings.HasPrefix(k, \"subj_\") {\n\t\t\taddSubjectSELinuxLabel(k[5:], v, event)", "\t\t} else if strings.HasPrefix(k, \"subj_\") {\n\t\t\tif k == \"subj_level\" {\n\t\t\t\tcontinue\n\t\t\t}\n\t\t\taddSubjectSELinuxLabel(k[5:], v, event)"))
+M("c09-partial-event", ["C09"], "a group without SYSCALL returns a partial event and an error", (CO, "\t\treturn nil, errors.New(\"missing syscall message in compound event\")", "\t\treturn newEvent(msgs[0], nil), errors.New(\"missing syscall message in compound event\")"))
+M("c15-category-append-shared", ["C15"], "ECS category slice of the table extended in place", (CO, "\t\tevent.ECS.Event.Category = append(event.ECS.Event.Category, syscallNorm.ECS.Category.Values...)", "\t\tnorm.ECS.Category.Values = append(norm.ECS.Category.Values[:len(norm.ECS.Category.Values):len(norm.ECS.Category.Values)], syscallNorm.ECS.Category.Values...)[:len(norm.ECS.Category.Values)+len(syscallNorm.ECS.Category.Values)]\n\t\tevent.ECS.Event.Category = norm.ECS.Category.Values"))
+M("c15-delete-result-again", ["C15"], "newEvent deletes result from the message map again", (CO, "\tif result, found := data[\"result\"]; found {\n\t\tevent.Result = result\n\t} else {", "\tif result, found := data[\"result\"]; found {\n\t\tevent.Result = result\n\t\tdelete(data, \"result\")\n\t} else {"))
+M("c15-cache-no-mutex", ["C15"], "ID cache lookup without its mutex", ("aucoalesce/id_lookup.go", "\tc.mutex.Lock()\n\tdefer c.mutex.Unlock()\n\n\tif item, found := c.data[key]; found && !item.isExpired() {", "\tif item, found := c.data[key]; found && !item.isExpired() {"))
+M("c15-shared-scratch", ["C15"], "Paths maps shared through a package-level scratch slice", (CO, "\tevent.Paths = append(event.Paths, data)\n}", "\tscratchPaths = append(scratchPaths[:0], event.Paths...)\n\tevent.Paths = append(scratchPaths, data)\n}\n\nvar scratchPaths []map[string]string"))
